@@ -221,6 +221,7 @@ func c06ChecksigCases(yield func(c06Case), thorough bool) {
 								{"other-algorithm", cachedSign(k0, 0, rt, base.idx(), code, amount, ht, !forkAlgo, "")},
 								{"empty", []byte{}},
 								{"type-only", []byte{ht}},
+								{"one-byte-contained-in-key", []byte{k0.comp[9]}},
 								{"high-s", highS(valid)},
 								{"der-padded", padDER(valid)},
 								{"der-bad-length", badLenDER(valid)},
@@ -360,8 +361,8 @@ func c06MultisigCases(yield func(c06Case), thorough bool) {
 								forkAlgo := ht&0x40 != 0 && f&fForkID != 0
 								// the script code of a multisig without signatures in the script is the whole script
 								code := lock
-								// slot alphabet: valid by key j, empty, type-only, other-tx, high-s
-								nslot := n + 4
+								// slot alphabet: valid by key j, empty, type-only, other-tx, high-s, one byte that occurs inside a key
+								nslot := n + 5
 								total := 1
 								for i := 0; i < m; i++ {
 									total *= nslot
@@ -399,6 +400,10 @@ func c06MultisigCases(yield func(c06Case), thorough bool) {
 											case s == n+2:
 												sigs = append(sigs, cachedSign(keys[0], keyIdx[0], &other, 0, code, amount, ht, forkAlgo, "ms"))
 												desc += "other-tx,"
+											case s == n+4:
+												// a one-byte element whose byte also occurs inside a public key of this script
+												sigs = append(sigs, []byte{keys[1].comp[9]})
+												desc += "byte-in-key,"
 											default:
 												sigs = append(sigs, highS(cachedSign(keys[i%3], keyIdx[i%3], rt, 0, code, amount, ht, forkAlgo, "ms")))
 												desc += "high-s,"
@@ -432,7 +437,7 @@ func c06MultisigCases(yield func(c06Case), thorough bool) {
 
 func init() {
 	p := register(&Prop{ID: "C06", Level: "exploration",
-		Rule: "exhaustive product with real ECDSA signatures, every case executed in lockstep against the reference model (CHECKSIG/CHECKMULTISIG written after the node's interpreter, certified on the signature vectors of script_tests.json; digests certified on the sighash vectors): CHECKSIG family: 8 locking-script forms (CHECKSIG, NOT, CHECKSIGVERIFY, OP_CODESEPARATOR before the key / before the opcode / unexecuted / later in the script, P2PKH) x 5 key encodings (compressed, uncompressed, hybrid, truncated, empty) x 17 hash types (12 standard, 5 undefined) x 9 signature kinds (valid, over another tx, by another key, over the other digest algorithm, empty, hash-type byte only, high-S, DER-padded, wrong DER length) x ALL 64 subsets of {STRICTENC, DERSIG, LOW_S, NULLDUMMY, NULLFAIL, SIGHASH_FORKID} x both eras x tx shapes (1 in/1 out, no outputs; thorough: 2 inputs); signature-in-script (exact push and substring). CHECKMULTISIG family: every m-of-n with 0<=m<=n<=3, every m-tuple over the slot alphabet {valid by key j for every j, empty, type-only, other tx, high-S} (hence every order), dummy {empty, 01}, key mutations, 3 opcode forms, uniform and mixed per-signature hash types, 2/5 hash types, 64 flag subsets x both eras. Oracle: verdict and every stack snapshot equal the reference. distinct_nontrivial = distinct (script pair, flags) executions",
+		Rule: "exhaustive product with real ECDSA signatures, every case executed in lockstep against the reference model (CHECKSIG/CHECKMULTISIG written after the node's interpreter, certified on the signature vectors of script_tests.json; digests certified on the sighash vectors): CHECKSIG family: 8 locking-script forms (CHECKSIG, NOT, CHECKSIGVERIFY, OP_CODESEPARATOR before the key / before the opcode / unexecuted / later in the script, P2PKH) x 5 key encodings (compressed, uncompressed, hybrid, truncated, empty) x 17 hash types (12 standard, 5 undefined) x 9 signature kinds (valid, over another tx, by another key, over the other digest algorithm, empty, hash-type byte only, high-S, DER-padded, wrong DER length) x ALL 64 subsets of {STRICTENC, DERSIG, LOW_S, NULLDUMMY, NULLFAIL, SIGHASH_FORKID} x both eras x tx shapes (1 in/1 out, no outputs; thorough: 2 inputs); signature-in-script (exact push and substring). CHECKMULTISIG family: every m-of-n with 0<=m<=n<=3, every m-tuple over the slot alphabet {valid by key j for every j, empty, type-only, other tx, high-S, a single byte that occurs inside a public key} (hence every order), dummy {empty, 01}, key mutations, 3 opcode forms, uniform and mixed per-signature hash types, 2/5 hash types, 64 flag subsets x both eras. Oracle: verdict and every stack snapshot equal the reference. distinct_nontrivial = distinct (script pair, flags) executions",
 	})
 	sp := NewSpace(p, "sigops", c06Check)
 	p.Run = func(r *rep.Run, thorough bool) {
